@@ -43,6 +43,8 @@ def dispatch (line : String) : String :=
   | "idtok" :: args => Id.driver args
   | "agent" :: args => Agent.driver args
   | "ipp" :: args => Ipp.driver args
+  | "seg" :: "http" :: args => Relay.segHttpDriver args
+  | "dgram" :: args => Relay.dgramDriver args
   | "seg" :: args => Proto.driver args
   | "iso" :: args => Iso.driver args
   | "rel" :: args => Rel.driver args
